@@ -8,7 +8,7 @@
       (set_explicit_max_length, then process_updates)
     - src/api/roa.rs:62-74,85-90,112-125,536-539  RoaPayload::{set_explicit_max_length,
       effective_max_length, max_length_valid}, RoaConfigurationUpdates::set_explicit_max_length
-    - rpki-0.19.2 repository/resources/set.rs:141-143 ResourceSet::contains_roa_address,
+    - src/api/roa.rs:85-91 RoaPayload::is_held_by; rpki-0.19.2 repository/resources/
       ipres.rs:410-418 IpBlocks::contains_roa, ipres.rs:1579-1586 Addr::from_v4/from_v6,
       ipres.rs:1624-1644 Addr::to_min/to_max.
 
@@ -69,9 +69,19 @@ Definition fam_ranges (res : resources) (f : fam) : list range :=
 Definition holds_prefix (res : resources) (p : prefix) : bool :=
   covered (fam_ranges res (p_fam p)) (plo p) (phi p).
 
-(** What the code checks: [self.ipv4.contains_roa(a) || self.ipv6.contains_roa(a)],
-    both on the 128-bit range of the prefix - the family is not looked at. *)
-Definition contains_roa_address (res : resources) (p : prefix) : bool :=
+(** What the code checks (api/roa.rs:85-91, RoaPayload::is_held_by, repaired tree,
+    finding F05a): [contains_roa] on the blocks *of the prefix's own family*, with
+    the 128-bit range of the prefix. *)
+Definition is_held_by (res : resources) (p : prefix) : bool :=
+  match p_fam p with
+  | V4 => covered (map up4 (r_v4 res)) (lo128 p) (hi128 p)
+  | V6 => covered (r_v6 res) (lo128 p) (hi128 p)
+  end.
+
+(** The originally pinned tree called ResourceSet::contains_roa_address
+    ([self.ipv4.contains_roa(a) || self.ipv6.contains_roa(a)], rpki set.rs:141-143):
+    both families' blocks on the 128-bit range - the family was not looked at. *)
+Definition contains_roa_address_pinned (res : resources) (p : prefix) : bool :=
   covered (map up4 (r_v4 res)) (lo128 p) (hi128 p) || covered (r_v6 res) (lo128 p) (hi128 p).
 
 Definition contains_asn (res : resources) (a : N) : bool := covered (r_asn res) a a.
@@ -150,7 +160,7 @@ Inductive add_class := AInvalid | ANotHeld | AComment | ADup | ANew.
 
 Definition classify (res : resources) (dm : routes) (c : roa_conf) : add_class :=
   if negb (max_length_valid (rc_pl c)) then AInvalid
-  else if negb (contains_roa_address res (pl_pfx (rc_pl c))) then ANotHeld
+  else if negb (is_held_by res (pl_pfx (rc_pl c))) then ANotHeld
   else match rget dm (rc_pl c) with
        | Some cm => if comment_eqb cm (rc_comment c) then ADup else AComment
        | None => ANew
@@ -211,7 +221,7 @@ Definition ca_routes_update (res : resources) (m : routes) (d : delta) : routes 
     after the removals): the stored comment if [k] is configured, otherwise that
     of the first earlier acceptable entry for [k]. *)
 Definition acceptable (res : resources) (c : roa_conf) : bool :=
-  max_length_valid (rc_pl c) && contains_roa_address res (pl_pfx (rc_pl c)).
+  max_length_valid (rc_pl c) && is_held_by res (pl_pfx (rc_pl c)).
 
 Definition eff_get (res : resources) (dm : routes) (pre : list roa_conf) (k : payload) : option comment :=
   match rget dm k with
@@ -235,7 +245,7 @@ Fixpoint filter_ctx {A} (f : list A -> A -> bool) (pre l : list A) : list A :=
 
 Definition spec_invalid (d : delta) : list roa_conf := filter (fun c => negb (max_length_valid (rc_pl c))) (d_added d).
 Definition spec_notheld (res : resources) (d : delta) : list roa_conf :=
-  filter (fun c => max_length_valid (rc_pl c) && negb (contains_roa_address res (pl_pfx (rc_pl c)))) (d_added d).
+  filter (fun c => max_length_valid (rc_pl c) && negb (is_held_by res (pl_pfx (rc_pl c)))) (d_added d).
 Definition spec_unknown (m : routes) (d : delta) : list payload :=
   filter_ctx (fun pre p => negb (rhas m p) || memb payload_eqb p pre) [] (d_removed d).
 Definition spec_dup (res : resources) (m : routes) (d : delta) : list roa_conf :=
@@ -244,7 +254,7 @@ Definition spec_dup (res : resources) (m : routes) (d : delta) : list roa_conf :
 (** Right-hand side of the accept/refuse characterisation, as a boolean. *)
 Definition refuse_spec (res : resources) (m : routes) (d : delta) : bool :=
   existsb (fun c => negb (max_length_valid (rc_pl c))) (d_added d)
-  || existsb (fun c => negb (contains_roa_address res (pl_pfx (rc_pl c)))) (d_added d)
+  || existsb (fun c => negb (is_held_by res (pl_pfx (rc_pl c)))) (d_added d)
   || existsb (fun p => negb (rhas m p)) (d_removed d)
   || has_dup payload_eqb (d_removed d)
   || negb (match spec_dup res m d with [] => true | _ => false end).
